@@ -1,14 +1,18 @@
 """C08 -- the hyper-optimizer returns its best trial and reports that trial's true costs.
 
-Three ties of the Lean model (Model/Hyper.lean, Model/HyperTrial.lean) to /repo, on every run:
+Three ties of the Lean models (Model/Hyper.lean, Model/HyperTrial.lean and the extended transcription
+Model/HyperX.lean: NaN / -inf scores, raising workers, clean-up of in-flight futures, times, get_trials())
+to /repo, on every run:
 
   A  scripted searches: the real `HyperOptimizer` with a harness-registered optlib (scripted
      settings) and path function (scripted scores / BadTrial / exceptions / delays), run serially,
      on a *scripted executor* that forces a chosen completion order, on a real thread pool and on
      a real process pool; one to three consecutive searches on the same object; every stop rule.
      The observed completion order (and, for wall-clock rules, the observed stop decisions) is fed
-     to the driver op `c08.search`; lists, best record, optlib reports, cancelled futures and the
-     number of submissions must coincide (E).
+     to the driver ops `c08.xsearch` (always) and `c08.search` (cases the earlier model covers); lists,
+     best record, cancelled / finished-and-dropped / left-behind futures, whether the search was left by
+     an exception and the number of submissions must coincide (E); `c08.xprefixes`: the best score seen by
+     the sampler after every assessed trial is that of the model run over the same prefix of the log.
   B  worker stack: the real trial function built by `HyperOptimizer.setup` (wrappers +
      `ComputeScore` + real objectives) on a table-driven mock tree versus `c08.worker` (E).
   F  source-derived facts (AST of scoring.py / hyper.py): which objectives fill flops/write/size,
@@ -28,6 +32,7 @@ import json
 import math
 import os
 import random
+import sys
 import time
 import warnings
 
@@ -53,7 +58,18 @@ LEVEL_TEXT = (
     "contract_stats() of the tree after the last mutation (wrapper_stats_fresh, record_costs_true_partial, "
     "winner_costs_true), composed end to end in hyper_search_correct_serial/_parallel. The model is tied to /repo on every run by equality correspondence on scripted "
     "searches (serial / forced completion orders / thread pool / process pool), on the real wrapper stack "
-    "over a mock tree, and by source-derived fact tables with closed obligations."
+    "over a mock tree, and by source-derived fact tables with closed obligations. Round 3: a second, extended "
+    "transcription (Model/HyperX.lean) in which scores are arbitrary floats with the IEEE semantics of < and >= "
+    "(NaN, -inf), workers may raise (on_trial_error='raise': the search is left by the exception, no clean-up), "
+    "the clean-up sees which in-flight futures had already finished, and self.times / get_trials() are part of "
+    "the state: best is the first minimal trial among the non-NaN scores and NaN trials never disturb later "
+    "comparisons (best_is_argmin_nan, nan_trial_does_not_affect_best; ge_variant_counterexample for the "
+    "`>=`-else loop body); every search -- any schedule, stopping point, raising worker, clean-up -- keeps the "
+    "invariant that best is the arg-min of exactly the recorded trials (search_serial_tracks, "
+    "search_parallel_tracks, early_stop_best_is_argmin_of_recorded; harvest_report_only_counterexample / "
+    "harvest_and_assess_tracks for the two other clean-ups); xhyper_search_correct_serial/_parallel end to end "
+    "with float-valued objectives; the earlier model is its image under NaN -> inf (xrunLog_erase); on the "
+    "current source no guard is left (current_source_costs_true, current_source_search_correct)."
 )
 LEVEL_NOTE = (
     "Partial where stated: record_costs_true_partial needs the guard 'the objective or ComputeScore fills "
@@ -65,7 +81,7 @@ LEVEL_NOTE = (
 )
 TECHNIQUE = ("Lean 4 proof (fold invariant over completion logs; permutation/conservation invariant of the "
              "parallel loop) + differential correspondence with scripted real HyperOptimizer runs + AST fact tables")
-LEAN_MODULES = ["CotengraVerif.Props.C08", "CotengraVerif.Props.C08Facts"]
+LEAN_MODULES = ["CotengraVerif.Props.C08", "CotengraVerif.Props.C08X", "CotengraVerif.Props.C08Facts"]
 THEOREMS = [
     "Cotengra.C08.best_is_argmin",
     "Cotengra.C08.best_score_order_independent",
@@ -95,25 +111,56 @@ THEOREMS = [
     "Cotengra.C08.setup_order_as_modelled",
     "Cotengra.C08.every_wrapper_updates",
     "Cotengra.C08.repaired_code_costs_true",
+    # round 3: extended model (Model/HyperX.lean)
+    "Cotengra.C08.best_is_argmin_nan",
+    "Cotengra.C08.nan_never_best",
+    "Cotengra.C08.usable_gives_winner",
+    "Cotengra.C08.nan_trial_does_not_affect_best",
+    "Cotengra.C08.ge_variant_same_without_nan",
+    "Cotengra.C08.ge_variant_counterexample",
+    "Cotengra.C08.xlists_aligned",
+    "Cotengra.C08.get_trials_aligned",
+    "Cotengra.C08.xwinner_row",
+    "Cotengra.C08.search_serial_tracks",
+    "Cotengra.C08.parallel_search_xspec",
+    "Cotengra.C08.search_parallel_tracks",
+    "Cotengra.C08.early_stop_best_is_argmin_of_recorded",
+    "Cotengra.C08.harvest_and_assess_tracks",
+    "Cotengra.C08.harvest_report_only_counterexample",
+    "Cotengra.C08.xcomputeScore_erase",
+    "Cotengra.C08.xrecord_costs_true",
+    "Cotengra.C08.xhyper_search_correct_serial",
+    "Cotengra.C08.xhyper_search_correct_parallel",
+    "Cotengra.C08.xrunLog_erase",
+    "Cotengra.C08.optlib_reports_sound",
+    "Cotengra.C08.optlib_reports_complete",
+    "Cotengra.C08.compute_score_post_ensures",
+    "Cotengra.C08.current_source_costs_true",
+    "Cotengra.C08.current_source_search_correct",
 ]
 TRUSTED = [
     "Lean 4.33 kernel; axioms ⊆ {propext, Classical.choice, Quot.sound}",
-    "hand-written models Model/Hyper.lean, Model/HyperTrial.lean of hyper.py:175-340, 525-735 and "
+    "hand-written models Model/Hyper.lean, Model/HyperTrial.lean, Model/HyperX.lean of hyper.py:175-342, 527-793 and "
     "scoring.py:38-47, tied by the correspondences of this check on the generated cases only",
     "the AST fact extractor in harness/c08.py (gen_facts) -- validated dynamically by tie B",
     "harness canonicalisation: float scores -> dense ranks (justified by C08.best_map_mono), inf -> null",
-    "Python float comparison without NaN; concurrent.futures semantics of done()/result()/cancel()",
+    "Python float comparison = IEEE (xlt/xge: false whenever NaN is involved); x ** score_compression + smudge "
+    "is NaN iff x is; concurrent.futures semantics of done()/result()/cancel()",
+    "the observing executors of the harness (ScriptedExecutor, ObservedPool wrapping a real thread/process "
+    "pool) passed as `parallel=`; the stack inspection that tells a result() taken during _maybe_cancel_futures",
 ]
 ASSUMPTIONS = [
-    "scores are never NaN; on_trial_error='raise' aborting a search is not modelled",
+    "a score is a real float (a custom objective returning a negative finite number under a fractional "
+    "score_compression yields a complex score: outside the model)",
     "real pool scheduling is sampled, not enumerated; forced completion orders go through a scripted "
     "executor object passed as `parallel=`",
     "trees / contract_stats / slice_ / subtree_reconfigure_ / simulated_anneal_ are oracles in the proof; "
     "their agreement with the recorded figures is checked on real runs only",
 ]
-RULE = ("A: random scripts (1-3 searches x 1-8 repeats; trial kinds ok/okinf/BadTrial/exception; tied scores; "
-        "2 method names; max_training_steps; stop rules never/equil/rate/zero/large; pre_dispatch 1-5 or "
-        "default) x {serial, forced order, thread pool, process pool}; B: random stats/mutation tables x all 16 "
+RULE = ("A: random scripts (1-3 searches x 1-8 repeats; trial kinds ok/okinf/nan/-inf/BadTrial/exception/"
+        "scoring exception/overflow; tied scores; 2 method names; max_training_steps; on_trial_error warn/ignore/"
+        "raise; score_compression 0.75/1.0; stop rules never/equil/rate/zero/large; pre_dispatch 1-5 or default; "
+        "workers already finished at submit) x {serial, forced order, thread pool, process pool}; B: random stats/mutation tables x all 16 "
         "option subsets x 8 objective kinds x raw outcome; C: random connected networks x method subsets x "
         "6 objectives x 8 option sets x {serial, threads, processes}. Non-trivial = more than one trial and "
         "(a failure, a tie, a stop, a wrapper or a pool); distinct by content hash")
@@ -149,14 +196,30 @@ def scripted_path_fn(inputs, output, size_dict, tid=0, kind="ok", k=1, delay=0.0
     if kind == "exc":
         raise ValueError("scripted trial failure")
     tree = ctg.ContractionTree.from_path(inputs, output, size_dict, path=variant_path(len(inputs), variant))
-    # "scoreexc" / "overflow": the tree is built fine, the objective then fails on it
-    tree.verif_val = float("inf") if kind == "okinf" else kind if kind in SCORE_FAIL_KINDS else k * BIG
+    # "scoreexc" / "overflow": the tree is built fine, the objective then fails on it;
+    # "nan" / "ninf": the objective answers float('nan') / float('-inf') for it
+    tree.verif_val = (float("inf") if kind == "okinf" else float("nan") if kind == "nan"
+                      else float("-inf") if kind == "ninf" else kind if kind in SCORE_FAIL_KINDS else k * BIG)
     tree.verif_tid = tid
     return tree
 
 
 SCORE_FAIL_KINDS = ("scoreexc", "overflow")
 FAIL_KINDS = ("bad", "exc") + SCORE_FAIL_KINDS
+RAISING_KINDS = ("exc",) + SCORE_FAIL_KINDS   # propagate with on_trial_error='raise' (BadTrial never does)
+TREE_KINDS = ("ok", "okinf", "nan", "ninf")    # the trial carries a tree and that tree's figures
+
+
+def compressed(x, c):
+    """What ComputeScore makes of the objective's value x (before the 1e-6 smudge)."""
+    return x ** c
+
+
+def expected_score(p, c):
+    """Recorded score of a scripted trial with a tree, as a float."""
+    if p["kind"] == "ok":
+        return compressed(p["k"] * BIG, c)
+    return compressed({"okinf": float("inf"), "nan": float("nan"), "ninf": float("-inf")}[p["kind"]], c)
 
 
 def scripted_objective(trial):
@@ -174,11 +237,28 @@ def _optlib_init(self, methods, space, script=None, **_):
     self._verif_next = 0
     self._verif_reports = []
     self._verif_overrun = 0
+    self._verif_snaps = []
+
+
+def _snapshot(self):
+    """The record as the sampler sees it when it is asked for the next setting (between two
+    assessed trials): lengths of the seven lists, best score, minimum of the comparable scores."""
+    lens = [len(self.method_choices), len(self.param_choices), len(self.scores), len(self.costs_flops),
+            len(self.costs_write), len(self.costs_size), len(self.times)]
+    us = [x for x in self.scores if x == x]
+    b = self.best
+    return {"n": len(self.scores), "lens_ok": len(set(lens)) == 1,
+            "best": fscore(b["score"]), "best_tid": b["params"].get("tid") if "params" in b else None,
+            "min": fscore(min(us)) if us else "inf"}
 
 
 def _optlib_get_setting(self):
     i = self._verif_next
     self._verif_next += 1
+    try:
+        self._verif_snaps.append(_snapshot(self))
+    except Exception as e:  # an unreadable record is a finding of its own
+        self._verif_snaps.append({"error": type(e).__name__})
     if i < len(self._verif_script):
         m, params = self._verif_script[i]
     else:  # more settings drawn than the harness scripted: budget overrun, recorded
@@ -203,10 +283,38 @@ def _register():
 #  scripted executor: forces which pending future is found done() next
 # ------------------------------------------------------------------------------------------
 
+def _in_cleanup():
+    """Is the caller (a future method) being run from inside `_maybe_cancel_futures`?"""
+    f = sys._getframe(2)
+    while f is not None:
+        if f.f_code.co_name == "_maybe_cancel_futures":
+            return True
+        f = f.f_back
+    return False
+
+
+class _Observed:
+    """What the harness records about the futures a search handles (any pool mode)."""
+
+    def _obs_init(self):
+        self.cancel_calls = []   # fids on which cancel() was called, in call order
+        self.discarded = []      # those among them whose worker had already finished
+        self.raised = []         # fids whose result() raised
+        self.late = []           # fids whose result() was taken during the clean-up
+        self.times = {}          # fid -> trial["time"] of the returned record
+        self.nsub = 0
+
+    def _obs_result(self, fid, value):
+        if _in_cleanup():
+            self.late.append(fid)
+        if isinstance(value, dict):
+            self.times[fid] = value.get("time")
+
+
 class ScriptedFuture:
-    def __init__(self, ex, fid, value):
-        self.ex, self.fid, self.value = ex, fid, value
-        self.cancelled_flag = False
+    def __init__(self, ex, fid, value, exc, fast):
+        self.ex, self.fid, self.value, self.exc = ex, fid, value, exc
+        self.finished = bool(fast)
 
     def done(self):
         return self.ex._poll(self)
@@ -215,30 +323,35 @@ class ScriptedFuture:
         return self.ex._collect(self)
 
     def cancel(self):
-        self.cancelled_flag = True
         self.ex.cancel_calls.append(self.fid)
         if self in self.ex.pending:
             self.ex.pending.remove(self)
-        if self.ex.current is self:
-            self.ex.current = None
+        if self.finished:  # nothing left to cancel
+            self.ex.discarded.append(self.fid)
+            return False
         return True
 
 
-class ScriptedExecutor:
-    """`parallel=` object: runs the submitted call at submit time, reports exactly one pending
-    future as done at any moment, chosen by `choices` (position in the pending list)."""
+class ScriptedExecutor(_Observed):
+    """`parallel=` object: runs the submitted call at submit time.  A future scripted `fast` is
+    finished from the start; otherwise, whenever no pending future is finished, the next entry of
+    `choices` (a position in the pending list) picks the one that finishes next.  The driver's
+    scan therefore finds a forced future, and several futures can be finished but not yet looked
+    at when the search stops."""
 
     def __init__(self, n_workers, choices):
         self._max_workers = n_workers
         self.choices = list(choices)
         self.pending = []
-        self.current = None
-        self.cancel_calls = []
-        self.nsub = 0
         self.polls = 0
+        self._obs_init()
 
     def submit(self, fn, *args, **kwargs):
-        fut = ScriptedFuture(self, self.nsub, fn(*args, **kwargs))
+        try:
+            value, exc = fn(*args, **kwargs), None
+        except Exception as e:  # delivered by result(), as a real pool does
+            value, exc = None, e
+        fut = ScriptedFuture(self, self.nsub, value, exc, kwargs.get("fast", False))
         self.nsub += 1
         self.pending.append(fut)
         return fut
@@ -248,18 +361,69 @@ class ScriptedExecutor:
         if self.polls > 3000:  # a driver that never looks at the finished future: let all finish
             return True
         if fut not in self.pending:  # a future the driver should have dropped
-            return False
-        if self.current is None:
+            return fut.finished
+        if not any(f.finished for f in self.pending):
             c = self.choices.pop(0) if self.choices else 0
-            self.current = self.pending[c % len(self.pending)]
-        return fut is self.current
+            self.pending[c % len(self.pending)].finished = True
+        return fut.finished
 
     def _collect(self, fut):
         if fut in self.pending:
             self.pending.remove(fut)
-        self.current = None
+        fut.finished = True
         self.polls = 0
+        if fut.exc is not None:
+            self.raised.append(fut.fid)
+            raise fut.exc
+        self._obs_result(fut.fid, fut.value)
         return fut.value
+
+    def new_search(self):
+        """Whatever an aborted earlier search left behind is stale."""
+        self.pending.clear()
+        self.polls = 0
+
+
+class ObservedFuture:
+    def __init__(self, pool, fid, inner):
+        self.pool, self.fid, self.inner = pool, fid, inner
+
+    def done(self):
+        return self.inner.done()
+
+    def result(self, timeout=None):
+        try:
+            value = self.inner.result(timeout)
+        except BaseException:
+            self.pool.raised.append(self.fid)
+            raise
+        self.pool._obs_result(self.fid, value)
+        return value
+
+    def cancel(self):
+        self.pool.cancel_calls.append(self.fid)
+        ok = self.inner.cancel()
+        if not ok and self.inner.done():  # finished before the clean-up reached it
+            self.pool.discarded.append(self.fid)
+        return ok
+
+
+class ObservedPool(_Observed):
+    """`parallel=` object wrapping a real executor: same scheduling, but the harness sees which
+    future raised, which were finished when cancelled, what time each record carried."""
+
+    def __init__(self, inner, n_workers):
+        self.inner = inner
+        self._max_workers = n_workers
+        self._obs_init()
+
+    def submit(self, fn, *args, **kwargs):
+        fut = ObservedFuture(self, self.nsub, self.inner.submit(fn, *args, **kwargs))
+        self.nsub += 1
+        return fut
+
+    def new_search(self):
+        pass
 
 
 _POOLS = {}
@@ -301,19 +465,23 @@ def small_net(rng):
     raise RuntimeError("no network")
 
 
-def make_script(rng, total, mode, allfail=False):
+def make_script(rng, total, mode, allfail=False, raising=True, fast=0.0):
     script = []
     for tid in range(total + 2):  # two spare settings: drawn only by a budget overrun
         u = rng.random()
-        kind = ("ok" if u < 0.62 else "okinf" if u < 0.69 else "bad" if u < 0.78 else "exc" if u < 0.86
-                else "scoreexc" if u < 0.94 else "overflow")
+        kind = ("ok" if u < 0.52 else "okinf" if u < 0.57 else "nan" if u < 0.68 else "ninf" if u < 0.72
+                else "bad" if u < 0.80 else "exc" if u < 0.87 else "scoreexc" if u < 0.94 else "overflow")
+        if not raising and kind in RAISING_KINDS and rng.random() < 0.7:
+            kind = "ok"   # on_trial_error='raise': keep most searches going for a while
         if allfail:
-            kind = rng.choice(["bad", "exc", "okinf", "scoreexc", "overflow"])
+            kind = rng.choice(["bad", "exc", "okinf", "scoreexc", "overflow", "nan", "nan"])
         delay = 0.0
         if mode in ("threads", "procs"):
             delay = rng.choice([0.0, 0.0, 0.0003, 0.0008, 0.0015])
-        script.append([rng.randrange(2), {"tid": tid, "kind": kind, "k": rng.randint(1, 4),
-                                          "delay": delay, "variant": rng.randrange(6)}])
+        params = {"tid": tid, "kind": kind, "k": rng.randint(1, 4), "delay": delay, "variant": rng.randrange(6)}
+        if fast and rng.random() < fast:
+            params["fast"] = True   # forced mode: this worker has finished as soon as it is submitted
+        script.append([rng.randrange(2), params])
     return script
 
 
@@ -330,17 +498,37 @@ def gen_scripted(rng, tier, mode=None):
             s["amount"] = rng.randint(0, 3)
         searches.append(s)
         total += r
-    script = make_script(rng, total, mode, rng.random() < 0.06)
+    on_error = rng.choice(["warn", "ignore", "warn", "ignore", "raise"])
+    fast = rng.choice([0.0, 0.0, 0.3, 0.6]) if mode == "forced" else 0.0
+    script = make_script(rng, total, mode, rng.random() < 0.06, raising=on_error != "raise", fast=fast)
     case = {"kind": "scripted", "net": small_net(rng).json(), "mode": mode, "searches": searches,
             "script": script, "mts": rng.choice([None, None, 0, 1, 3]),
-            "on_error": rng.choice(["warn", "ignore"])}
-    if not any(p["kind"] in ("exc",) + SCORE_FAIL_KINDS for _, p in script) and rng.random() < 0.3:
-        case["on_error"] = "raise"
+            "on_error": on_error}
+    if rng.random() < 0.25:
+        case["compression"] = 1.0   # score_compression=1: -inf survives (x ** 0.75 maps it to +inf)
     if mode != "serial":
         case["workers"] = rng.randint(1, 3)
         case["pre"] = rng.choice([None, 1, 2, 3, 4, 5])
         if mode == "forced":
             case["choices"] = [rng.randrange(6) for _ in range(total)]
+    return case
+
+
+def gen_inflight(rng, tier):
+    """Forced-mode searches that end (stop rule, or a raising worker) while several pre-dispatched
+    futures are in flight, many of them already finished."""
+    case = gen_scripted(rng, tier, "forced")
+    total = sum(s["max_repeats"] for s in case["searches"])
+    for s in case["searches"]:
+        s["max_repeats"] = max(s["max_repeats"], 4)
+        if rng.random() < 0.7:
+            s["stop"] = rng.choice(["zero", "equil", "rate"])
+            s["amount"] = rng.randint(0, 2)
+    total = sum(s["max_repeats"] for s in case["searches"])
+    case["on_error"] = rng.choice(["warn", "raise", "raise"])
+    case["script"] = make_script(rng, total, "forced", False, raising=case["on_error"] != "raise", fast=0.6)
+    case["pre"] = rng.choice([3, 4, 5, None])
+    case["choices"] = [rng.randrange(6) for _ in range(total)]
     return case
 
 
@@ -357,6 +545,19 @@ def fig(x):
     return int(x)
 
 
+def fscore(x):
+    """JSON-safe image of a float score: NaN / ±inf as strings (replays must round-trip)."""
+    if x != x:
+        return "nan"
+    if math.isinf(x):
+        return "inf" if x > 0 else "-inf"
+    return x
+
+
+def unf(x):
+    return float(x) if isinstance(x, str) else x
+
+
 def run_scripted(case):
     """Run the real optimizer. Returns the list of per-search observations."""
     net = gen.Net.from_json(case["net"])
@@ -369,13 +570,17 @@ def run_scripted(case):
         ex = ScriptedExecutor(case["workers"], case.get("choices", []))
         par = ex
     else:
-        par = get_pool(mode, case["workers"])
+        ex = ObservedPool(get_pool(mode, case["workers"]), case["workers"])
+        par = ex
     obs = []
     with warnings.catch_warnings():
         warnings.simplefilter("ignore")
+        kw = {}
+        if "compression" in case:
+            kw["score_compression"] = case["compression"]
         opt = ctg.HyperOptimizer(methods=list(METHODS), optlib="verif", minimize=scripted_objective,
                                  max_repeats=1, parallel=par, on_trial_error=case["on_error"],
-                                 max_training_steps=case["mts"], script=script)
+                                 max_training_steps=case["mts"], script=script, **kw)
         if mode != "serial" and case.get("pre") is not None:
             opt.pre_dispatch = case["pre"]
         for s in case["searches"]:
@@ -383,18 +588,28 @@ def run_scripted(case):
             opt.max_time = {"never": None, "equil": "equil:%d" % s.get("amount", 0), "rate": "rate:1e300",
                             "zero": 0.0, "large": 1e9}[s["stop"]]
             n0, sub0 = len(opt.scores), opt._verif_next
-            ncancel0 = len(ex.cancel_calls) if ex else 0
-            if ex:  # whatever an aborted earlier search left behind is stale
-                ex.pending.clear()
-                ex.current = None
-                ex.polls = 0
+            snap0 = len(opt._verif_snaps)
+            marks = {k: len(getattr(ex, k)) for k in ("cancel_calls", "discarded", "raised", "late")} if ex else {}
+            if ex:
+                ex.new_search()
             err, tree = None, None
             try:
                 tree = opt.search(net.sym_inputs(), net.sym_output(), net.sym_sizes())
             except KeyError as e:
                 err = "KeyError:" + str(e.args[0])
-            except Exception as e:  # anything else is unexpected
+            except Exception as e:  # a scripted failure with on_trial_error='raise', or unexpected
                 err = type(e).__name__ + ":" + str(e)[:80]
+            gt = None
+            try:
+                gt = [[METHODS.index(m), fig(sz), fig(f), fig(w), p["tid"]] for m, sz, f, w, p in opt.get_trials()]
+            except Exception as e:
+                gt = "get_trials raised " + type(e).__name__
+            left = []
+            for item in list(getattr(opt, "_futures", []) or []):
+                try:
+                    left.append(item[0]["params"]["tid"])
+                except Exception:
+                    left.append(-1)
             o = {
                 "err": err,
                 "n_new": len(opt.scores) - n0,
@@ -402,25 +617,34 @@ def run_scripted(case):
                 "overrun": opt._verif_overrun,
                 "methods": [METHODS.index(m) for m in opt.method_choices],
                 "params": [p["tid"] for p in opt.param_choices],
-                "scores": list(opt.scores),
+                "scores": [fscore(x) for x in opt.scores],
                 "flops": [fig(x) for x in opt.costs_flops],
                 "write": [fig(x) for x in opt.costs_write],
                 "size": [fig(x) for x in opt.costs_size],
                 "lens": [len(opt.method_choices), len(opt.param_choices), len(opt.scores),
                          len(opt.costs_flops), len(opt.costs_write), len(opt.costs_size), len(opt.times)],
-                "best_score": opt.best_score,
+                "get_trials": gt,
+                "snaps": list(opt._verif_snaps[snap0:]),
+                "best_score": fscore(opt.best_score),
                 "trials_since_best": opt.trials_since_best,
-                "reports": list(opt._verif_reports),
+                "reports": [(t, fscore(x)) for t, x in opt._verif_reports],
                 "pre": getattr(opt, "pre_dispatch", None),
-                "futures_left": len(getattr(opt, "_futures", [])),
-                "cancel_calls": list(ex.cancel_calls[ncancel0:]) if ex else None,
+                "futures_left": left,
+                "cancel_calls": list(ex.cancel_calls[marks["cancel_calls"]:]) if ex else None,
+                "discarded": list(ex.discarded[marks["discarded"]:]) if ex else None,
+                "raised": list(ex.raised[marks["raised"]:]) if ex else None,
+                "late": list(ex.late[marks["late"]:]) if ex else None,
             }
+            if ex:  # the time each recorded row should carry: that of its own trial's record
+                o["times_ok"] = [opt.times[i] == ex.times.get(p["tid"], "?") if i < len(opt.times) else False
+                                 for i, p in enumerate(opt.param_choices)]
             b = opt.best
             if "params" in b:
-                o["best"] = {"score": b["score"], "flops": fig(b["flops"]), "write": fig(b["write"]),
+                o["best"] = {"score": fscore(b["score"]), "flops": fig(b["flops"]), "write": fig(b["write"]),
                              "size": fig(b["size"]), "has_tree": "tree" in b,
                              "tid": b["params"].get("tid"), "method": b["params"].get("method"),
-                             "tree_tid": getattr(b.get("tree"), "verif_tid", None)}
+                             "tree_tid": getattr(b.get("tree"), "verif_tid", None),
+                             "time_in_times": b.get("time", "missing") in opt.times}
             else:
                 o["best"] = None
             if tree is not None:
@@ -434,24 +658,52 @@ def run_scripted(case):
     return obs
 
 
+def usable(scores):
+    """The recorded scores that can be compared: everything but NaN (as floats)."""
+    return [x for x in map(unf, scores) if x == x]
+
+
 def oracle_scripted(case, obs):
     """Property oracle from the script alone. Returns None or (kind, detail)."""
     net = gen.Net.from_json(case["net"])
     script = {p["tid"]: (m, p) for m, p in case["script"]}
+    comp = case.get("compression", 0.75)
     exp_stats = {}
     seen_before = 0
+    first_sub = 0
     for si, (s, o) in enumerate(zip(case["searches"], obs)):
+        aborted = False
         if o["err"] not in (None, "KeyError:tree"):
-            return ("search-raised", o["err"])
-        if len(set(o["lens"][:6])) != 1:
+            # with on_trial_error='raise' a failing trial takes the search down -- allowed only if
+            # such a trial was submitted by this search
+            mine = range(first_sub, first_sub + o["submitted_new"])
+            culprits = [t for t in mine if t in script and script[t][1]["kind"] in RAISING_KINDS]
+            scripted_err = o["err"].startswith(("ValueError:scripted", "OverflowError:"))
+            if case["on_error"] == "raise" and culprits and scripted_err:
+                aborted = True
+            else:
+                return ("search-raised", o["err"])
+        first_sub += o["submitted_new"]
+        if len(set(o["lens"])) != 1:
             return ("lists-length", o["lens"])
+        # the invariant holds whenever the sampler looks at the record (between two assessed trials):
+        # lists aligned, best score = minimum of the comparable scores recorded so far
+        for sn in o["snaps"]:
+            if "error" in sn:
+                return ("record-unreadable-mid-search", sn)
+            if not sn["lens_ok"]:
+                return ("lists-length-mid-search", sn)
+            if unf(sn["min"]) < float("inf") and unf(sn["best"]) != unf(sn["min"]):
+                return ("best-not-min-mid-search", sn)
+            if sn["best"] == "nan":
+                return ("best-not-min-mid-search", sn)
         n = len(o["scores"])
         # budget
         if o["n_new"] > s["max_repeats"] or o["submitted_new"] > s["max_repeats"] or o["overrun"]:
             return ("budget-exceeded", [o["n_new"], o["submitted_new"], s["max_repeats"]])
-        if s["stop"] in ("never", "large") and o["n_new"] != s["max_repeats"]:
+        if s["stop"] in ("never", "large") and o["n_new"] != s["max_repeats"] and not aborted:
             return ("budget-short", [o["n_new"], s["max_repeats"]])
-        if o["futures_left"]:
+        if o["futures_left"] and not aborted:
             return ("futures-left", o["futures_left"])
         # each trial reported at most once
         if len(set(o["params"])) != n:
@@ -464,40 +716,60 @@ def oracle_scripted(case, obs):
             m, p = script[tid]
             if o["methods"][i] != m:
                 return ("row-method", [i, tid])
-            ok = p["kind"] in ("ok", "okinf")
-            sc = o["scores"][i]
-            if (p["kind"] == "ok") != (not math.isinf(sc)):
-                return ("row-score-finiteness", [i, tid, p["kind"], sc])
-            if p["kind"] == "ok" and abs(sc - (p["k"] * BIG) ** 0.75) > 1.0:
-                return ("row-score", [i, tid, sc])
-            if ok:
+            has_tree = p["kind"] in TREE_KINDS
+            sc = unf(o["scores"][i])
+            if has_tree:
+                want_sc = expected_score(p, comp)
+                if want_sc != want_sc:
+                    # the objective answered NaN: recorded as NaN, or turned into a failed trial (+inf)
+                    if sc == sc and sc != float("inf"):
+                        return ("row-score", [i, tid, p["kind"], o["scores"][i]])
+                    if sc == float("inf") and [o["flops"][i], o["write"][i], o["size"][i]] == [None, None, None]:
+                        continue
+                elif math.isinf(want_sc):
+                    if sc != want_sc:
+                        return ("row-score-finiteness", [i, tid, p["kind"], o["scores"][i]])
+                elif not (abs(sc - want_sc) <= 1.0):
+                    return ("row-score", [i, tid, o["scores"][i]])
                 if p["variant"] not in exp_stats:
                     exp_stats[p["variant"]] = expected_stats(net, p["variant"])
                 want = list(exp_stats[p["variant"]])
             else:
+                if sc != float("inf"):
+                    return ("row-score-finiteness", [i, tid, p["kind"], o["scores"][i]])
                 want = [None, None, None]
             got = [o["flops"][i], o["write"][i], o["size"][i]]
             if got != want:
                 return ("row-figures", [i, tid, got, want])
         seen_before = n
-        # arg-min with the winner's own params and figures; which minimal trial wins is the code's
-        # freedom; with no finite score at all the search may raise KeyError('tree') or return the
-        # tree of one of the (all equally scored) trials that has one
-        finite = [sc for sc in o["scores"] if not math.isinf(sc)]
-        if o["err"] is not None:
-            if finite:
-                return ("no-tree-despite-finite-trial", o["err"])
+        # get_trials() is the same record, row by row
+        rows = [[o["methods"][i], o["size"][i], o["flops"][i], o["write"][i], o["params"][i]] for i in range(n)]
+        if o["get_trials"] != rows:
+            return ("get-trials-vs-lists", [str(o["get_trials"])[:120], rows[:3]])
+        # arg-min over the comparable (non-NaN) scores, with the winner's own params and figures;
+        # which minimal trial wins is the code's freedom; with no score below +inf the search may
+        # raise KeyError('tree') or return the tree of one of the +inf-scored trials that has one;
+        # a NaN-scored trial is never a winner
+        us = usable(o["scores"])
+        below = [x for x in us if x < float("inf")]
+        if aborted:
+            b = o["best"]
+            if below and (b is None or unf(b["score"]) != min(us)):
+                return ("best-not-min-after-aborted-search", [b, min(us)])
             continue
-        mn = min(o["scores"]) if o["scores"] else float("inf")
+        if o["err"] is not None:
+            if below:
+                return ("no-tree-despite-usable-trial", o["err"])
+            continue
+        mn = min(us) if us else float("inf")
         b = o["best"]
-        if b is None or not b["has_tree"] or b["score"] != mn:
-            return ("best-not-min", [b, mn])
-        winners = [i for i, sc in enumerate(o["scores"]) if sc == mn and o["params"][i] == b["tid"]]
+        if b is None or not b["has_tree"] or unf(b["score"]) != mn:
+            return ("best-not-min", [b, fscore(mn)])
+        winners = [i for i, sc in enumerate(o["scores"]) if unf(sc) == mn and o["params"][i] == b["tid"]]
         if not winners:
             return ("best-not-a-minimal-trial", [b["tid"], [o["params"][i] for i, sc in enumerate(o["scores"])
-                                                            if sc == mn]])
-        first = winners[0]
-        if script[b["tid"]][1]["kind"] not in ("ok", "okinf"):
+                                                            if unf(sc) == mn]])
+        if script[b["tid"]][1]["kind"] not in TREE_KINDS or script[b["tid"]][1]["kind"] == "nan":
             return ("best-is-a-failed-trial", b)
         r = o.get("ret")
         if r is None or not (r["is_best_tree"] and r["complete"] and r["net_ok"]):
@@ -523,67 +795,103 @@ def derive_choices(order, pre, max_repeats, first_sub):
     return choices
 
 
-def model_scripted(drv, case, obs, softstats):
-    """Build the driver request from the script + observed completion order; compare."""
+def has_new_features(case, obs):
+    """Does the case use anything the earlier model (c08.search) does not have?"""
+    if any(p["kind"] in ("nan", "ninf") for _, p in case["script"]):
+        return True
+    return any(o["err"] not in (None, "KeyError:tree") or o.get("late") or o.get("discarded") or o.get("raised")
+               for o in obs)
+
+
+def model_requests(case, obs):
+    """The driver requests (old and extended model) from the script + the observed completion
+    order / stop decisions.  Returns (settings, trials, xtrials, done, searches) or an error string."""
     net = gen.Net.from_json(case["net"])
-    nsub_total = sum(o["submitted_new"] for o in obs)
+    comp = case.get("compression", 0.75)
     exp_stats = {}
-    settings, trials = [], []
+    settings, trials, xtrials = [], [], []
     for m, p in case["script"]:
         settings.append([m, p["tid"]])
-        if p["kind"] in ("ok", "okinf"):
+        fail = {"score": None, "flops": None, "write": None, "size": None, "tree": None, "time": p["tid"]}
+        if p["kind"] in TREE_KINDS:
             if p["variant"] not in exp_stats:
                 exp_stats[p["variant"]] = expected_stats(net, p["variant"])
             f, w, s = exp_stats[p["variant"]]
+            want = expected_score(p, comp)
+            xs = (p["k"] if p["kind"] == "ok" else "nan" if want != want else None if want > 0 else "-inf")
+            xtrials.append({"score": xs, "flops": f, "write": w, "size": s, "tree": 1, "time": p["tid"]})
             trials.append({"score": p["k"] if p["kind"] == "ok" else None,
                            "flops": f, "write": w, "size": s, "tree": 1})
         else:
-            trials.append({"score": None, "flops": None, "write": None, "size": None, "tree": None})
+            trials.append(fail)
+            xtrials.append("raise" if (p["kind"] in RAISING_KINDS and case["on_error"] == "raise") else fail)
     searches = []
     first_sub, seen = 0, 0
+    # workers known to have finished by the time the clean-up popped their future
+    done = sorted({t for o in obs for t in (o.get("discarded") or []) + (o.get("late") or []) +
+                   ((o.get("raised") or []) if o["err"] in (None, "KeyError:tree") else [])})
     for s, o in zip(case["searches"], obs):
-        order = o["params"][seen:]
+        late = [t for t in (o.get("late") or [])]
+        recorded = o["params"][seen:]
+        order = recorded[:len(recorded) - len(late)] if late else recorded   # assessed by the loop
+        aborted = o["err"] not in (None, "KeyError:tree")
+        stopped = (not aborted) and (len(order) < s["max_repeats"])
         stop = s["stop"]
+        nonfinite = any(isinstance(x, str) for x in o["scores"])
+        hist = o["scores"]
         if stop in ("never", "large"):
             sj = {"kind": "never"}
-        elif stop == "equil":
-            hist = o["scores"]
-            if any(math.isinf(x) for x in hist) or len(set(hist)) != len(hist):
-                # tie-breaking / treatment of inf records is the code's freedom and changes
-                # trials_since_best: take the observed stop decisions as the environment
-                sj = {"kind": "clock", "bits": [False] * (len(order) - 1) + [len(order) < s["max_repeats"]]}
-            else:
-                sj = {"kind": "equil", "amount": s["amount"]}
+        elif stop == "equil" and not (nonfinite or len(set(hist)) != len(hist)):
+            sj = {"kind": "equil", "amount": s["amount"]}
         else:
-            # wall-clock rules (max_time=0.0, 'rate:1e300'): the stop decisions are the environment;
-            # observed: the search stopped after its last reported trial iff it ran short
-            sj = {"kind": "clock", "bits": [False] * (len(order) - 1) + [len(order) < s["max_repeats"]]}
+            # wall-clock rules (max_time=0.0, 'rate:1e300') and 'equil' on histories with ties / inf /
+            # NaN (tie-breaking and the treatment of such records is the code's freedom and changes
+            # trials_since_best): the stop decisions are the environment; observed: the loop stopped
+            # after the last trial it assessed iff it ran short
+            sj = {"kind": "clock", "bits": [False] * max(len(order) - 1, 0) + ([stopped] if order else [])}
         req = {"max_repeats": s["max_repeats"], "stop": sj}
         if case["mode"] == "serial":
             req["mode"] = "serial"
         else:
             req["mode"] = "parallel"
             req["pre"] = o["pre"]
-            ch = derive_choices(order, o["pre"], s["max_repeats"], first_sub)
+            picked = list(order)
+            if aborted:
+                if len(o["raised"] or []) != 1:
+                    return "aborted search without exactly one raising future: %r" % (o["raised"],)
+                picked.append(o["raised"][0])
+            ch = derive_choices(picked, o["pre"], s["max_repeats"], first_sub)
             if ch is None:
                 return "observed completion order is not admissible under the pre_dispatch window"
             req["choices"] = ch
+            if late:
+                req["cleanup"] = "assess"
         searches.append(req)
         first_sub += o["submitted_new"]
         seen = len(o["params"])
-    resp = drv.call("c08.search", mts=case["mts"], settings=settings, trials=trials, searches=searches)
-    if "error" in resp:
-        return "driver error: " + resp["error"]
-    # both sides: dense ranks of the finite scores that occur (order isomorphism, C08.best_map_mono)
-    allsc = sorted({x for o in obs for x in o["scores"] if not math.isinf(x)})
-    allm = sorted({x for r in resp["searches"] for x in r["state"]["scores"] if x is not None})
+    return settings, trials, xtrials, done, searches
+
+
+def ranker(values):
+    """Dense ranks of the finite scores that occur (order isomorphism, C08.best_map_mono); +inf ->
+    None, NaN / -inf keep their names."""
+    fin = sorted({x for x in values if isinstance(x, (int, float)) and not isinstance(x, bool)})
 
     def rank(x):
-        return None if math.isinf(x) else allsc.index(x)
+        if x is None or x == "inf":
+            return None
+        if isinstance(x, str):
+            return x
+        return fin.index(x)
 
-    def mrank(x):
-        return None if x is None else allm.index(x)
+    return rank
 
+
+def compare_states(case, obs, resp, softstats, extended):
+    allsc = [x for o in obs for x in o["scores"]] + [o["best_score"] for o in obs]
+    allm = [x for r in resp["searches"] for x in r["state"]["scores"]] + \
+           [r["state"]["best_score"] for r in resp["searches"]]
+    rank, mrank = ranker(allsc), ranker(allm)
     for si, (o, r) in enumerate(zip(obs, resp["searches"])):
         st = dict(r["state"])
         st["scores"] = [mrank(x) for x in st["scores"]]
@@ -596,6 +904,16 @@ def model_scripted(drv, case, obs, softstats):
         mine = {"methods": o["methods"], "params": o["params"], "scores": [rank(x) for x in o["scores"]],
                 "flops": o["flops"], "write": o["write"], "size": o["size"],
                 "submitted": sum(x["submitted_new"] for x in obs[:si + 1])}
+        if extended:
+            mine["get_trials"] = o["get_trials"]
+            if len(st["times"]) != o["lens"][6]:
+                return f"search {si}: len(times): model {len(st['times'])} vs implementation {o['lens'][6]}"
+            if o.get("times_ok") is not None:
+                # which float each row of `times` carries (model: the row's own trial's, as id) is
+                # bookkeeping the property does not talk about: counted
+                mt = [t if ok else -1 for t, ok in zip(o["params"], o["times_ok"])]
+                key = "times:" + ("agree" if st["times"] == mt else "differ")
+                softstats[key] = softstats.get(key, 0) + 1
         for k, v in mine.items():
             if st[k] != v:
                 return f"search {si}: field {k}: model {st[k]} vs implementation {v}"
@@ -603,25 +921,142 @@ def model_scripted(drv, case, obs, softstats):
         soft = {"best_score": rank(o["best_score"]), "trials_since_best": o["trials_since_best"],
                 "reports": [[t, rank(x)] for t, x in o["reports"]]}
         for k, v in soft.items():
-            softstats[k + (":agree" if st[k] == v else ":differ")] = \
-                softstats.get(k + (":agree" if st[k] == v else ":differ"), 0) + 1
+            key = k + (":agree" if st[k] == v else ":differ")
+            softstats[key] = softstats.get(key, 0) + 1
         b = o["best"]
         mb = st["best"]
         has_winner = b is not None and b["has_tree"]
-        any_finite = any(not math.isinf(x) for x in o["scores"])
-        if any_finite and has_winner != (mb is not None):
+        any_below = any(x < float("inf") for x in usable(o["scores"]))
+        if any_below and has_winner != (mb is not None):
             return f"search {si}: existence of a winner differs"
-        if any_finite and has_winner:
+        if any_below and has_winner:
             # same best score; which minimal trial wins is free (the oracle checked it is one of them
             # and carries its own figures)
             if rank(b["score"]) != mb["trial"]["score"]:
                 return f"search {si}: best score: model {mb['trial']['score']} vs implementation {rank(b['score'])}"
-            softstats["winner:" + ("same" if b["tid"] == mb["params"] else "other-minimal")] = \
-                softstats.get("winner:" + ("same" if b["tid"] == mb["params"] else "other-minimal"), 0) + 1
-        if any_finite and (o["err"] == "KeyError:tree") != (st["tree"] is None):
+            key = "winner:" + ("same" if b["tid"] == mb["params"] else "other-minimal")
+            softstats[key] = softstats.get(key, 0) + 1
+        aborted = o["err"] not in (None, "KeyError:tree")
+        if any_below and not aborted and (o["err"] == "KeyError:tree") != (st["tree"] is None):
             return f"search {si}: tree presence differs"
-        if o["cancel_calls"] is not None and sorted(o["cancel_calls"]) != sorted(r["cancelled"]):
+        if extended:
+            if bool(r["raised"]) != aborted:
+                return f"search {si}: left by an exception: model {r['raised']} vs implementation {o['err']}"
+            if o["cancel_calls"] is not None:
+                if aborted:
+                    # what was in flight and never recorded (left in _futures, or cancelled by a
+                    # tree that cleans up in a finally: block): the property does not say which
+                    m_in = sorted(set(r["cancelled"]) | set(r["futures_left"]))
+                    i_in = sorted(set(o["cancel_calls"]) | set(o["futures_left"]))
+                    if m_in != i_in:
+                        return f"search {si}: in-flight futures after the exception: model {m_in} vs implementation {i_in}"
+                    if r.get("raised_id") is not None and [r["raised_id"]] != o["raised"]:
+                        return f"search {si}: raising future: model {r['raised_id']} vs implementation {o['raised']}"
+                else:
+                    # a future popped by the clean-up is cancelled, or (a tree that collects finished
+                    # ones) its result is taken
+                    popped = sorted(set(o["cancel_calls"]) | set(o["late"]) | set(o["raised"]))
+                    if popped != sorted(r["cancelled"]):
+                        return f"search {si}: futures popped at clean-up: model {r['cancelled']} vs implementation {popped}"
+                    fin = sorted(set(o["discarded"]) | set(o["late"]) | set(o["raised"]))
+                    if fin != sorted(r["discarded"]):
+                        return f"search {si}: finished futures met by the clean-up: model {r['discarded']} vs implementation {fin}"
+        elif o["cancel_calls"] is not None and sorted(o["cancel_calls"]) != sorted(r["cancelled"]):
             return f"search {si}: cancelled futures: model {r['cancelled']} vs implementation {o['cancel_calls']}"
+    return None
+
+
+def model_scripted(drv, case, obs, softstats):
+    """Compare with the extended model (always) and with the earlier model (cases it covers)."""
+    req = model_requests(case, obs)
+    if isinstance(req, str):
+        return req
+    settings, trials, xtrials, done, searches = req
+    resp = drv.call("c08.xsearch", mts=case["mts"], settings=settings, trials=xtrials, done=done,
+                    searches=searches)
+    if "error" in resp:
+        return "driver error (c08.xsearch): " + resp["error"]
+    diff = compare_states(case, obs, resp, softstats, True)
+    if diff:
+        return "c08.xsearch: " + diff
+    # intermediate states: whenever the sampler looked at the real record (n trials recorded and
+    # assessed), its best score must be that of the model run over the first n entries of the log
+    order = obs[-1]["params"]
+    if all(isinstance(xtrials[k], dict) for k in order if k < len(xtrials)) and all(k < len(xtrials) for k in order):
+        resp = drv.call("c08.xprefixes", mts=case["mts"], settings=settings, trials=xtrials, order=order)
+        if "error" in resp:
+            return "driver error (c08.xprefixes): " + resp["error"]
+        pre = resp["prefixes"]
+        # both sides: dense ranks over the scores recorded in the whole history
+        rank = ranker(list(obs[-1]["scores"]))
+        mrank = ranker([xtrials[k]["score"] for k in order])
+        nsn = 0
+        for si, o in enumerate(obs):
+            for sn in o["snaps"]:
+                if "error" in sn or sn["n"] >= len(pre):
+                    continue
+                below = unf(sn["min"]) < float("inf")
+                if below and rank(sn["best"]) != mrank(pre[sn["n"]]["best"]):
+                    return (f"c08.xprefixes: search {si}: after {sn['n']} recorded trials best score: model "
+                            f"{pre[sn['n']]['best']} vs implementation {sn['best']}")
+                nsn += 1
+        softstats["mid_search_states_compared"] = softstats.get("mid_search_states_compared", 0) + nsn
+    if not has_new_features(case, obs):
+        old = [{k: v for k, v in s.items() if k != "cleanup"} for s in searches]
+        resp = drv.call("c08.search", mts=case["mts"], settings=settings, trials=trials, searches=old)
+        if "error" in resp:
+            return "driver error (c08.search): " + resp["error"]
+        diff = compare_states(case, obs, resp, {}, False)
+        if diff:
+            return "c08.search: " + diff
+        softstats["also_earlier_model"] = softstats.get("also_earlier_model", 0) + 1
+    return None
+
+
+def determinize(case, obs):
+    """A violation met on a real pool depends on that run's scheduling.  Try to reproduce it with the
+    forced executor -- the observed completion order, workers that were finished at clean-up scripted
+    `fast`; then a few random schedules of the same script -- so that the replay is deterministic.
+    Returns (case, bad) or None."""
+    if case.get("mode") not in ("threads", "procs") or not obs:
+        return None
+    base = json.loads(json.dumps(case))
+    base["mode"] = "forced"
+    base["pre"] = obs[0]["pre"]
+    for _, p in base["script"]:
+        p["delay"] = 0.0
+    tries = []
+    choices, first_sub, seen, ok = [], 0, 0, True
+    for s, o in zip(case["searches"], obs):
+        late = o.get("late") or []
+        rec = o["params"][seen:]
+        picked = rec[:len(rec) - len(late)] if late else list(rec)
+        if o["err"] not in (None, "KeyError:tree") and o.get("raised"):
+            picked.append(o["raised"][0])
+        ch = derive_choices(picked, o["pre"], s["max_repeats"], first_sub)
+        if ch is None:
+            ok = False
+            break
+        choices += ch
+        first_sub += o["submitted_new"]
+        seen = len(o["params"])
+    fin = {t for o in obs for t in (o.get("discarded") or []) + (o.get("late") or [])}
+    if ok:
+        tries += [(choices, fin), (choices, set())] if fin else [(choices, set())]
+    r = random.Random(len(json.dumps(case)))
+    total = sum(x["max_repeats"] for x in case["searches"])
+    for _ in range(40):
+        tries.append(([r.randrange(6) for _ in range(total)],
+                      {p["tid"] for _, p in base["script"] if r.random() < 0.5}))
+    for ch, fast in tries:
+        c2 = json.loads(json.dumps(base))
+        c2["choices"] = list(ch)
+        for _, p in c2["script"]:
+            if p["tid"] in fast:
+                p["fast"] = True
+        obs2, bad2 = judge(c2)
+        if bad2 is not None:
+            return c2, bad2
     return None
 
 
@@ -647,17 +1082,33 @@ def check_scripted(ctx, drv, case):
         ctx.count("A:stopped_early" if o["n_new"] < s["max_repeats"] else "A:ran_full")
         if o["cancel_calls"]:
             ctx.count("A:cancelled_futures", len(o["cancel_calls"]))
-        if o["err"]:
-            ctx.count("A:all_failed_search")
+        if o["discarded"]:
+            ctx.count("A:finished_futures_dropped_at_cleanup", len(o["discarded"]))
+        if o["err"] == "KeyError:tree":
+            ctx.count("A:no_usable_trial_search")
+        elif o["err"]:
+            ctx.count("A:search_left_by_exception")
+            if o["futures_left"]:
+                ctx.count("A:futures_left_after_exception", len(o["futures_left"]))
+    ctx.count("A:on_error:" + case["on_error"])
+    ctx.count("A:compression:%s" % case.get("compression", 0.75))
     ctx.count("A:trials_reported", total)
     for t in obs[-1]["params"]:
         if t < len(case["script"]):
             ctx.count("A:trialkind:" + case["script"][t][1]["kind"])
     last = obs[-1]
-    fin = [x for x in last["scores"] if not math.isinf(x)]
+    fin = [x for x in last["scores"] if not isinstance(x, str)]
     tie = len(fin) != len(set(fin))
     if tie:
         ctx.count("A:tied_scores")
+    if "nan" in last["scores"]:
+        ctx.count("A:searches_with_nan_scores")
+        lb = last["best"]
+        if lb is not None and lb["tid"] in last["params"] and \
+                last["scores"].index("nan") < last["params"].index(lb["tid"]):
+            ctx.count("A:winner_found_after_a_nan_trial")
+    if "-inf" in last["scores"]:
+        ctx.count("A:searches_with_minus_inf_scores")
     if case["mode"] != "serial" and last["params"] != sorted(last["params"]):
         ctx.count("A:out_of_order_completion")
     nontrivial = total > 1 and (tie or len(fin) < len(last["scores"]) or case["mode"] != "serial"
@@ -665,6 +1116,10 @@ def check_scripted(ctx, drv, case):
     ctx.case(case, nontrivial=nontrivial)
     bad = bad0
     if bad is not None:
+        det = determinize(case, obs)
+        if det is not None:
+            ctx.count("A:pool_violation_reproduced_with_forced_executor")
+            case, bad = det
         report(ctx, case, bad, f"scripted hyper-optimizer search ({case['mode']}): {bad[0]}")
         return False
     if drv is not None:
@@ -677,7 +1132,7 @@ def check_scripted(ctx, drv, case):
             ctx.count("A:soft:" + k, v)
         ctx.traces += 1
         if diff:
-            ctx.corr_broken("c08.search: " + diff, case)
+            ctx.corr_broken(diff, case)
     return True
 
 
@@ -689,7 +1144,7 @@ WRAPPERS = ("anneal", "slice", "slice_reconf", "reconf")
 OPT_KW = {"anneal": "simulated_annealing_opts", "slice": "slicing_opts",
           "slice_reconf": "slicing_reconf_opts", "reconf": "reconf_opts"}
 OBJECTIVES = ("flops", "size", "write", "combo", "limit", "combo-256", "custom-fill", "custom-plain",
-              "custom-raise", "custom-inf")
+              "custom-raise", "custom-inf", "custom-nan", "custom-ninf")
 
 _MOCK = {}
 
@@ -764,8 +1219,16 @@ def custom_inf(trial):
     return float("inf")
 
 
+def custom_nan(trial):
+    return float("nan")
+
+
+def custom_ninf(trial):
+    return float("-inf")
+
+
 CUSTOM = {"custom-fill": custom_fill, "custom-plain": custom_plain, "custom-raise": custom_raise,
-          "custom-inf": custom_inf}
+          "custom-inf": custom_inf, "custom-nan": custom_nan, "custom-ninf": custom_ninf}
 
 
 def gen_worker(rng, tier):
@@ -779,6 +1242,7 @@ def gen_worker(rng, tier):
     return {"kind": "worker", "stats": stats, "mutate": mutate, "opts": opts,
             "objective": rng.choice(OBJECTIVES), "on_error": rng.choice(["warn", "ignore", "raise"]),
             "forested": rng.random() < 0.3,
+            "compression": rng.choice([0.75, 0.75, 1.0]),
             "raw": rng.choice([0, 0, 0, 0, 1, 2, "bad", "error"])}
 
 
@@ -793,7 +1257,8 @@ def run_worker(case):
     with warnings.catch_warnings():
         warnings.simplefilter("ignore")
         opt = ctg.HyperOptimizer(methods=[MOCK_METHOD], optlib="verif", minimize=minimize, max_repeats=1,
-                                 parallel=False, on_trial_error=case["on_error"], script=[], **kw)
+                                 parallel=False, on_trial_error=case["on_error"], script=[],
+                                 score_compression=case.get("compression", 0.75), **kw)
         trial_fn, args = opt.setup((("a",),), (), {"a": 2})
         try:
             trial = trial_fn(*args, method=MOCK_METHOD, raw=case["raw"])
@@ -808,7 +1273,9 @@ def run_worker(case):
 
     sc = trial.get("score", "missing") if isinstance(trial, dict) else "missing"
     o = {"raised": False,
-         "score": sc if sc == "missing" else "nan" if sc != sc else None if math.isinf(sc) else 0,
+         "score": (sc if sc == "missing" else "nan" if sc != sc else (None if sc > 0 else "-inf")
+                   if math.isinf(sc) else 0),
+         "has_time": isinstance(trial, dict) and isinstance(trial.get("time"), float),
          "flops": g("flops"), "write": g("write"), "size": g("size"),
          "tree": tree.id if tree is not None else None,
          "calls": list(tree.calls) if tree is not None else None,
@@ -822,8 +1289,10 @@ def oracle_worker(case, o, tree):
         if case["on_error"] != "raise":
             return ("worker-raised", o["exc"])
         return None
-    if o["score"] in ("missing", "nan"):
+    if o["score"] == "missing" or (o["score"] == "nan" and case["objective"] != "custom-nan"):
         return ("score-" + o["score"], o)
+    if not o["has_time"]:
+        return ("time-missing", o)
     if tree is None:
         if [o["score"], o["flops"], o["write"], o["size"]] != [None, None, None, None]:
             return ("failure-record", o)
@@ -874,29 +1343,33 @@ def check_worker(ctx, drv, case, facts):
         return True
     obj = case["objective"]
     if obj.startswith("custom"):
-        ensures = obj in ("custom-fill", "custom-inf")
+        ensures = obj in ("custom-fill", "custom-inf")   # custom-nan / custom-ninf / custom-plain do not fill
     else:
         ensures = facts["objective_ensures"].get(obj.split("-")[0])
         if ensures is None:
             ctx.corr_broken("no source fact for objective " + obj, case)
             return True
-    value = "raise" if obj == "custom-raise" else None if obj == "custom-inf" else 0
-    resp = drv.call("c08.worker", stats=case["stats"], mutate=case["mutate"], opts=case["opts"],
-                    ensures=bool(ensures), post_ensure=bool(facts["post_ensure"]), value=value,
-                    on_error=case["on_error"], raw=case["raw"])
-    ctx.traces += 1
-    if "error" in resp:
-        ctx.corr_broken("c08.worker driver error: " + resp["error"], case)
-        return True
-    if resp["raised"] != o["raised"]:
-        ctx.corr_broken("c08.worker: raised differs", case)
-    elif not o["raised"]:
-        mine = {k: o[k] for k in ("score", "flops", "write", "size", "tree")}
-        theirs = {k: resp[k] for k in ("score", "flops", "write", "size", "tree")}
-        if mine != theirs:
-            ctx.corr_broken(f"c08.worker: model {theirs} vs implementation {mine}", case)
-        elif tree is not None and resp["stack"] != o["calls"]:
-            ctx.corr_broken(f"c08.worker: wrapper order model {resp['stack']} vs {o['calls']}", case)
+    comp = case.get("compression", 0.75)
+    value = ("raise" if obj == "custom-raise" else None if obj == "custom-inf" else "nan" if obj == "custom-nan"
+             else ("-inf" if compressed(float("-inf"), comp) < 0 else None) if obj == "custom-ninf" else 0)
+    ops = ["c08.xworker"] + (["c08.worker"] if value in ("raise", None, 0) else [])
+    for op in ops:
+        resp = drv.call(op, stats=case["stats"], mutate=case["mutate"], opts=case["opts"],
+                        ensures=bool(ensures), post_ensure=bool(facts["post_ensure"]), value=value,
+                        on_error=case["on_error"], raw=case["raw"])
+        ctx.traces += 1
+        if "error" in resp:
+            ctx.corr_broken(op + " driver error: " + resp["error"], case)
+            return True
+        if resp["raised"] != o["raised"]:
+            ctx.corr_broken(op + ": raised differs", case)
+        elif not o["raised"]:
+            mine = {k: o[k] for k in ("score", "flops", "write", "size", "tree")}
+            theirs = {k: resp[k] for k in ("score", "flops", "write", "size", "tree")}
+            if mine != theirs:
+                ctx.corr_broken(f"{op}: model {theirs} vs implementation {mine}", case)
+            elif tree is not None and resp["stack"] != o["calls"]:
+                ctx.corr_broken(f"{op}: wrapper order model {resp['stack']} vs {o['calls']}", case)
     return True
 
 
@@ -908,7 +1381,20 @@ def check_worker(ctx, drv, case, facts):
 # 'e,ba,cd,ec,db->ba' (a C05 matter, reported to the lead); a hanging trial would stall the check.
 REAL_METHODS = ["greedy", "labels", "random-greedy"]
 KAHYPAR_METHODS = ["kahypar", "kahypar-balanced", "kahypar-agglom"]  # native, occasionally seconds per call
-REAL_OBJECTIVES = ["flops", "size", "write", "combo", "limit", "combo-256", "picky"]
+REAL_OBJECTIVES = ["flops", "size", "write", "combo", "limit", "combo-256", "picky", "nanny"]
+
+
+def nanny_objective(trial):
+    """A user objective that scores by flops and answers NaN ('not applicable') for about half of the
+    trees (those whose largest intermediate is big): such trials can never win and must not disturb
+    the selection among the others."""
+    st = trial["tree"].contract_stats()
+    if (int(st["size"]) + int(st["write"])) % 3 == 0 or int(st["flops"]) % 2:
+        return float("nan")
+    return math.log2(st["flops"] + 1.0)
+
+
+USER_OBJECTIVES = {}
 
 
 def picky_objective(trial):
@@ -920,6 +1406,7 @@ def picky_objective(trial):
             raise ValueError("picky objective rejects this tree")
         return 10.0 ** 400  # OverflowError
     return math.log2(st["flops"] + 1.0)
+USER_OBJECTIVES.update({"picky": picky_objective, "nanny": nanny_objective})
 OPTION_SETS = ["none", "slice", "reconf", "slice_reconf", "anneal", "anneal+slice", "slice+reconf",
                "reconf-forest"]
 
@@ -961,7 +1448,7 @@ def gen_real(rng, tier):
             "target_size": 2 ** rng.randint(2, 5),
             "pool": rng.choice(["serial", "serial", "serial", "threads", "procs"]),
             "searches": rng.choice([1, 1, 2])}
-    if case["objective"] == "picky":
+    if case["objective"] in USER_OBJECTIVES:
         # a plain callable has no score_slice_index / DP objective: post-processing needs an Objective
         case["options"] = "none"
         case["max_repeats"] = rng.randint(3, 6)
@@ -974,7 +1461,7 @@ def run_real(case):
     out = {"searches": []}
     with warnings.catch_warnings():
         warnings.simplefilter("ignore")
-        minimize = picky_objective if case["objective"] == "picky" else case["objective"]
+        minimize = USER_OBJECTIVES.get(case["objective"], case["objective"])
         opt = ctg.HyperOptimizer(methods=case["methods"], optlib="random", minimize=minimize,
                                  max_repeats=case["max_repeats"], parallel=par, seed=case["seed"],
                                  **real_kwargs(case))
@@ -985,15 +1472,20 @@ def run_real(case):
             except Exception as e:
                 out["searches"].append({"err": type(e).__name__ + ":" + str(e)[:60],
                                         "n_new": len(opt.scores) - n0,
-                                        "all_inf": all(math.isinf(x) for x in opt.scores)})
+                                        "all_inf": not any(x < float("inf") for x in opt.scores)})
                 break
             b = opt.best
             st = tree.contract_stats()
             us = gen.unsym(net)
             sliced = [us[ix] for ix in tree.sliced_inds]
             spec = refimpl.spec_costs(net, gen.bt_of_real(tree), sliced, sliced)
-            finite = [s for s in opt.scores if not math.isinf(s)]
+            finite = [s for s in opt.scores if s < float("inf")]   # comparable and below +inf
+            gt = opt.get_trials()
             out["searches"].append({
+                "get_trials_ok": gt == list(zip(opt.method_choices, opt.costs_size, opt.costs_flops,
+                                                opt.costs_write, opt.param_choices)) and len(gt) == len(opt.scores),
+                "nan_trials": sum(1 for s in opt.scores if s != s),
+                "lens7": len(opt.times),
                 "err": None, "n_new": len(opt.scores) - n0,
                 "lens": [len(opt.method_choices), len(opt.param_choices), len(opt.scores), len(opt.costs_flops),
                          len(opt.costs_write), len(opt.costs_size)],
@@ -1021,7 +1513,7 @@ def diagnose_all_fail(case):
         with warnings.catch_warnings():
             warnings.simplefilter("ignore")
             opt = ctg.HyperOptimizer(methods=case["methods"], optlib="random",
-                                     minimize=picky_objective if case["objective"] == "picky" else case["objective"],
+                                     minimize=USER_OBJECTIVES.get(case["objective"], case["objective"]),
                                      max_repeats=1, parallel=False, seed=case["seed"],
                                      on_trial_error="raise", **real_kwargs(case))
             opt.search(net.sym_inputs(), net.sym_output(), net.sym_sizes())
@@ -1033,13 +1525,15 @@ def diagnose_all_fail(case):
 def oracle_real(case, out):
     for s in out["searches"]:
         if s["err"] is not None:
-            if case["objective"] == "picky" and s["err"].startswith("KeyError:'tree'") and s["all_inf"] \
+            if case["objective"] in USER_OBJECTIVES and s["err"].startswith("KeyError:'tree'") and s["all_inf"] \
                     and s["n_new"] == case["max_repeats"]:
                 break  # the user objective rejected every tree: all trials ran, none could win
             why = diagnose_all_fail(case) if s["err"].startswith("KeyError:'tree'") else s["err"]
             return ("search-raised", why)
-        if len(set(s["lens"])) != 1:
-            return ("lists-length", s["lens"])
+        if len(set(s["lens"] + [s["lens7"]])) != 1:
+            return ("lists-length", s["lens"] + [s["lens7"]])
+        if not s["get_trials_ok"]:
+            return ("get-trials-vs-lists", s["lens"])
         if s["n_new"] != case["max_repeats"]:
             return ("budget", [s["n_new"], case["max_repeats"]])
         if not (s["complete"] and s["is_best_tree"] and s["net_ok"]):
@@ -1087,6 +1581,8 @@ def check_real(ctx, case):
             ctx.count("C:sliced_result")
         if s.get("failed_trials"):
             ctx.count("C:searches_with_failed_trials")
+        if s.get("nan_trials"):
+            ctx.count("C:searches_with_nan_trials")
         if s.get("err") and s.get("all_inf"):
             ctx.count("C:every_tree_rejected_by_objective")
     ctx.case(case, nontrivial=case["options"] != "none" or case["pool"] != "serial")
@@ -1303,6 +1799,10 @@ def _run(ctx, drv):
         mode = None
         if i % 40 != 0:
             mode = ctx.rng.choice(["serial", "serial", "forced", "forced", "forced", "forced", "threads"])
+        if i % 7 == 3:
+            check_scripted(ctx, drv, gen_inflight(ctx.rng, ctx.tier))
+            ctx.count("A:gen:inflight")
+            continue
         check_scripted(ctx, drv, gen_scripted(ctx.rng, ctx.tier, mode))
     # A': exhaustive forced completion orders for small searches
     combos = [(1, 3), (2, 3), (2, 4), (3, 4)] if quick else [(1, 4), (2, 4), (3, 4), (2, 5), (3, 5), (4, 5), (2, 6)]
@@ -1353,9 +1853,13 @@ def search(ctx):
             else:
                 case = gen_real(rng, "quick")
                 case["pool"] = "serial"
-            holds, sig, bad = replay_case(ctx, case)
+            obs, bad = judge(case)
+            holds = bad is None
             if not holds:
-                sig = dict(sig)
+                det = determinize(case, obs) if case.get("kind") == "scripted" else None
+                if det is not None:
+                    case, bad = det
+                sig = dict(sig_of(case, bad))
                 sig["found_by"] = "search"
                 if ctx.violation(sig, {"case": case, "failed": [bad[0], str(bad[1])[:300]]},
                                  f"failing input found by search: {bad[0]}"):
